@@ -220,6 +220,14 @@ func (e *Exec) evalExternal(call *ast.CallExpr, st *State, ctx *Ctx) []string {
 		return []string{h}
 	case "encoding/hex.EncodeToString":
 		return []string{"(hexenc " + arg(0) + ")"}
+	case "path/filepath.Dir":
+		return []string{"(pathDir " + arg(0) + ")"}
+	case "path/filepath.Base":
+		return []string{"(pathBase " + arg(0) + ")"}
+	case "path/filepath.Join":
+		if len(call.Args) == 2 {
+			return []string{"(pathJoin " + arg(0) + " " + arg(1) + ")"}
+		}
 	case "os.Environ":
 		e.note("os.Environ() is the constant osEnviron: the environment does not change during an evaluation (assumed)")
 		return []string{"osEnviron"}
